@@ -157,14 +157,19 @@ def check_seq(prop, tier, seed):
         # every read of the final sweep: engines must also agree on what a compaction leaves behind
         deep = seq_gen(work, dict(SEQ_CONSTS, Keys={1}, MaxOps=7, ExpKinds={"cur"}, CompactKinds={"cur", "cur-1", "cur-2"}, CompactAfter=4),
                        seed + 3, n // 2, name="gendeep") if prop == "C12" else []
-        for title, behs in (("2 keys", plain), ("3 keys", three), ("values equal to the deletion marker", star), ("1 key, deep history, compaction", deep)):
+        # C12: the same on Event records (written with a lease on engines with native TTL; the TTL itself is far away)
+        evh = seq_gen(work, dict(SEQ_CONSTS, MaxOps=6, ExpKinds={"zero", "cur"}, OpKinds={"create", "update", "delete"}), seed + 4, n // 2, name="genev") if prop == "C12" else []
+        for title, behs in (("2 keys", plain), ("3 keys", three), ("values equal to the deletion marker", star), ("1 key, deep history, compaction", deep),
+                            ("Event records", evh)):
             if not behs:
                 continue
             fl = flags if prop != "C13" else ["-seed", str(seed), "-sets", "30" if quick else "120"]
             if title.startswith("1 key"):
                 fl = ["-seed", str(seed), "-frac", "0.05", "-finalfrac", "1.0"]
+            if title.startswith("Event"):
+                fl = flags + ["-keyset", "events"]
             # C13 (and C03's final sweeps): also the TiKV adapter's own partition answer, from real regions split at run time
-            eng = engines + (",tikv-regions" if prop in ("C13", "C03") else "")
+            eng = engines + (",tikv-regions" if prop in ("C13", "C03", "C12") else "")
             rep, traces, agrees = seqrun(work, binp, behs, eng, 16, fl,
                                          agree=(prop == "C12"), cmd=PROP_CMD.get(prop, "seqrun"), name="seqrun_" + title.split(",")[0].replace(" ", "_"))
             cov["evaluations"] += rep.get("behaviours", 0)
@@ -180,6 +185,22 @@ def check_seq(prop, tier, seed):
             else:
                 alltraces += traces
             allagree += agrees
+        if prop == "C08":
+            # overlapping compaction requests: the record read and raised step by step by two compactors next to a writer
+            import fam_compact
+            cc = dict(fam_compact.CC_CONSTS, Compactors={"k1", "k2"}, CompactRevs={0, 2, 4}, InitStates={"live2", "deleted"}, RecordDetail=True, MaxCompacts=1)
+            r = fam_write.run_mc(work, cc, ["IndexAgrees", "ReadsPreserved", "StaysWritable"], props=["FloorNeverLowered"], name="mcrec")
+            cov["states"] += r["distinct"]; cov["transitions"] += r["states"]
+            cov["mc_runs"].append(dict(module="KubeBrain.tla (CRecGet / CRecCas / CScanGet / CScanPut)", config="two overlapping compaction requests and a writer, record steps separate",
+                                       distinct_states=r["distinct"], states_generated=r["states"], properties=["FloorNeverLowered"]))
+            behs2, _ = fam_write.gen_behaviours(work, cc, "simulate", seed + 9, num=1200 if quick else 12000, depth=100, limit=1200 if quick else 12000, name="genrec")
+            reports, trs = replay(work, binp, behs2, "memkv", 16, ["-recorddetail"], name="replayrec")
+            rp2 = merge_reports(reports)
+            cov["evaluations"] += rp2.get("behaviours", 0); cov["distinct_nontrivial"] += rp2.get("nontrivial", 0)
+            cov["replay"].append(dict(what="two overlapping compaction requests, record steps as gates", behaviours=rp2.get("behaviours", 0), agreed=rp2.get("agreed", 0),
+                                      diverged=rp2.get("diverged", 0), observable_mismatch=rp2.get("obs_mismatch", 0), notes=(rp2.get("mismatch_notes") or [])[:2]))
+            log("replay, overlapping compaction requests: %d behaviours, agreed %d, diverged %d" % (rp2.get("behaviours", 0), rp2.get("agreed", 0), rp2.get("diverged", 0)))
+            alltraces += trs
         if prop == "C03":
             # "... and returns the same answer whenever it is asked again": reads answered while writes are in flight
             # (reader processes of the concurrent model), judged when answered and again when everything has settled
